@@ -50,7 +50,7 @@ def respond(t, srv, *, code=CONTENT, body=0, last=True, obs=None, nr=0, mtype=No
             unsendable=False):
     ev = ["P", t, srv, mtype, rel, code, obs, body, nr, maxretr, last]
     if unsendable:
-        ev.append(True)
+        ev.append(unsendable)          # True: cannot be serialised; "uncopyable": serialises, cannot be deep-copied
     return ev
 
 
@@ -347,6 +347,24 @@ def c04_random(rng, cfg):
     events.sort(key=lambda e: e[1])
     events.append(far_end(events))
     return {"events": events, "rules": rules, "draws": [], "mid": first_mid, "tag": "random"}
+
+
+def c04_uncopyable(cfg):
+    """a piggy-backed response that serialises but cannot be deep-copied (an opaque option set to a memoryview):
+    copies of the request still get the acknowledgement that was sent (oracle only: the model has no options)"""
+    scripts = []
+    EAD = cfg["emptyAckDelay"]
+    for speed in ("fast", "slow"):
+        t = 5000
+        ev = [request_in(t, 0, 4660, "aa", mtype="CON", body=1),
+              respond(t + (1000 if speed == "fast" else 2 * EAD), 0, body=21, unsendable="uncopyable"),
+              request_in(t + 5 * EAD, 0, 4660, "aa", mtype="CON", body=1),
+              request_in(t + 3 * M, 0, 4660, "aa", mtype="CON", body=1)]
+        ev.append(far_end(ev))
+        rules = [{"remote": 0, "mtype": "CON", "nth": 1, "do": "ack", "after": 500}]
+        scripts.append({"events": ev, "rules": rules, "draws": [], "oracle_only": "uncopyable-response",
+                        "tag": f"uncopyable-ack:{speed}"})
+    return scripts
 
 
 def c04_alias(rng, cfg):
@@ -738,6 +756,27 @@ def c18_random(rng, cfg):
     events.sort(key=lambda e: e[1])
     events.append(far_end(events))
     return {"events": events, "rules": s["rules"], "draws": s["draws"], "tag": "random"}
+
+
+def c18_twice(rng, cfg):
+    """the application calls shutdown() a second time: from another task while the first call is still in
+    progress (same tick), or later (clean-up code that does not know it has run already)"""
+    s = c18_random(rng, cfg)
+    ts = [e[1] for e in s["events"] if e[0] == "X"][0]
+    events = [e for e in s["events"] if e[0] != "A"]
+    used = {e[1] for e in events}
+    if rng.random() < 0.5:
+        events.append(["X", ts, False, True])                 # concurrent
+        kind = "concurrent"
+    else:
+        t2 = ts + rng.choice([1, 1000, 2 * M, 10 * M])
+        while t2 in used:
+            t2 += 1
+        events.append(["X", t2])
+        kind = "later"
+    events.sort(key=lambda e: e[1])
+    events.append(far_end(events))
+    return dict(s, events=events, tag="shutdown-twice:" + kind)
 
 
 def c18_handler(rng):
